@@ -206,7 +206,7 @@ func init() {
 				}
 			}
 			out(AuthzCase{ID: fmt.Sprintf("ga%d", i), Emb: seed*1000003 + int64(i), Toks: []AToken{tok},
-				Script: []AOp{{Op: "new", A: 0, T: 0}, {Op: "add", A: 0, Az: az}, {Op: "authorize", A: 0}, {Op: "world", A: 0}}})
+				Script: []AOp{{Op: "new", A: 0, T: 0}, {Op: "add", A: 0, Az: az, Mode: []string{"", "block", "authorizer", "text"}[i%4]}, {Op: "authorize", A: 0}, {Op: "world", A: 0}}})
 		}
 	}
 }
